@@ -2,6 +2,7 @@
 (DESIGN 3.1), built fresh on every call."""
 from . import core  # noqa: F401
 import pvl
+import pvl.new
 from pvl.grammar import (PVLGrammar, ODLGrammar, PDSGrammar, ISISGrammar,
                          OmniGrammar)
 from pvl.decoder import PVLDecoder, ODLDecoder, PDSLabelDecoder, OmniDecoder
@@ -61,7 +62,30 @@ def make_encoder(config, **kw):
 
 def load(config, text, lexer_fn=None):
     """One guarded load: returns core.Outcome."""
+    if config == "new":
+        # the default configuration with the pvl.new container classes
+        # (documented module_class/group_class/object_class arguments)
+        kw = {} if lexer_fn is None else {"lexer_fn": lexer_fn}
+        return core.guarded(lambda: pvl.new.loads(text, **kw), len(text))
     if config == "default" and lexer_fn is None:
         return core.guarded(lambda: pvl.loads(text), len(text))
     p = make_parser(config, lexer_fn)
     return core.guarded(lambda: pvl.loads(text, parser=p), len(text))
+
+
+def load_route(config, text, route="parser"):
+    """The strict dialects can be selected in four documented ways."""
+    if route == "parser" or config in ("ISIS", "default"):
+        return load(config, text)
+    G = {"PVL": PVLGrammar, "ODL": ODLGrammar, "PDS3": PDSGrammar}[config]
+    D = {"PVL": PVLDecoder, "ODL": ODLDecoder, "PDS3": PDSLabelDecoder}[config]
+    if route == "grammar":
+        return core.guarded(lambda: pvl.loads(text, grammar=G()), len(text))
+    if route == "decoder":
+        return core.guarded(lambda: pvl.loads(text, decoder=D()), len(text))
+    if route == "both":
+        g = G()
+        return core.guarded(lambda: pvl.loads(text, grammar=g,
+                                              decoder=D(grammar=g)),
+                            len(text))
+    raise ValueError(route)
